@@ -30,6 +30,35 @@ func VerifC09NewFileRaw(size int, f *os.File) (Reader, Writer) {
 	return newPipe(&fileBuffer{f: f, size: uint64(size)})
 }
 
+// VerifC09NewMemRawAt / VerifC09NewFileRawAt: the same buffers in a state that only a long history reaches — read
+// position rpos (any uint64), len(content) unread bytes lying in the ring where that history would have put them.
+// (The pipe resets both positions to 0 whenever it runs empty, so large positions need gigabytes of traffic without
+// a drain; the hook sets them directly. Nothing else is touched.)
+func VerifC09NewMemRawAt(size int, rpos uint64, content []byte) (Reader, Writer) {
+	if size <= 0 || len(content) == 0 || len(content) > size {
+		panic("invalid preset")
+	}
+	m := &memBuffer{b: make([]byte, size), size: uint64(size), rpos: rpos, wpos: rpos + uint64(len(content))}
+	for j, c := range content {
+		m.b[(rpos+uint64(j))%uint64(size)] = c
+	}
+	return newPipe(m)
+}
+
+func VerifC09NewFileRawAt(size int, f *os.File, rpos uint64, content []byte) (Reader, Writer) {
+	if size <= 0 || len(content) == 0 || len(content) > size {
+		panic("invalid preset")
+	}
+	img := make([]byte, size) // the ring has wrapped: the file has its full length
+	for j, c := range content {
+		img[(rpos+uint64(j))%uint64(size)] = c
+	}
+	if _, err := f.WriteAt(img, 0); err != nil {
+		panic(err)
+	}
+	return newPipe(&fileBuffer{f: f, size: uint64(size), rpos: rpos, wpos: rpos + uint64(len(content))})
+}
+
 func verifC09PipeOf(x interface{}) *pipe {
 	switch v := x.(type) {
 	case *reader:
